@@ -47,6 +47,20 @@ impl Tier {
     }
 }
 
+/// scratch directory for files the solver really writes/reads: memory-backed
+/// when /dev/shm is available (the ext4 root is mounted with `discard`, which
+/// makes tens of thousands of small rewrites per second very slow), else
+/// <verif>/work/<pid>.  Created on demand, removed by the worker at exit.
+pub fn scratch_dir() -> String {
+    let shm = format!("/dev/shm/clarabel-verif-sim-{}", std::process::id());
+    if std::fs::create_dir_all(&shm).is_ok() {
+        return shm;
+    }
+    let dir = format!("{}/work/{}", verif_root(), std::process::id());
+    std::fs::create_dir_all(&dir).ok();
+    dir
+}
+
 pub fn panic_message(e: &Box<dyn std::any::Any + Send>) -> String {
     if let Some(s) = e.downcast_ref::<&str>() {
         s.to_string()
@@ -141,6 +155,19 @@ fn props() -> Vec<PropDef> {
         assumptions: &[
             "only the schedule / re-solve / reproducibility clauses of C05 are decided; the formulation-equivalence clauses are pure functions of the input and not claimed",
             "interleaving granularity = seam calls (about 12 clock reads per iteration, every sink call, every infinity accessor)",
+        ],
+    },
+    PropDef {
+        id: "C19",
+        num: 19,
+        level: "fault_enumeration",
+        run: props::c19::run,
+        quick_runs: 6_000,
+        thorough_runs: 12_000,
+        rule: "one case = one generated problem+settings saved to a real file, then (a) the fault-free round trip (stored data vs originals, settings, load with override, solve of the loaded problem), (b) descriptor faults (/dev/full, read-only, write-only, directory, handle not rewound, stale tail, pipe with 1-7 byte reads), (c) disk faults applied to the stored bytes: quick = lost write + 24 truncations + 40 bit flips + 40 hostile-byte substitutions + sector zeroing + duplicated tail; thorough = every truncation offset and every bit of every byte of the file, plus one substitution per byte; every case is non-trivial (a real file is written, faulted and loaded); distinct = distinct hash of the run's event-shape sequence",
+        assumptions: &[
+            "files live under <verif>/work/<pid>; the OS provides /dev/full, pipes and regular files",
+            "EINTR on the JSON file handles is not injected (the seam is a concrete std::fs::File)",
         ],
     },
     PropDef {
@@ -290,8 +317,7 @@ fn worker_main(args: &[String]) {
     let stride: u64 = args[5].parse().unwrap();
     let sample_every: u64 = args.get(6).and_then(|s| s.parse().ok()).unwrap_or(1000);
     std::panic::set_hook(Box::new(|_| {}));
-    let workdir = format!("{}/work/{}", verif_root(), std::process::id());
-    std::fs::create_dir_all(&workdir).ok();
+    let workdir = scratch_dir();
     let stdout = std::io::stdout();
     let mut shrunk_classes: BTreeSet<String> = BTreeSet::new();
     let mut idx = first;
@@ -307,7 +333,7 @@ fn worker_main(args: &[String]) {
             "idx": idx,
             "hash": format!("{:016x}", sim.hash),
             "shape": format!("{:016x}", sim.shape_hash),
-            "events": sim.log.len(),
+            "events": sim.n_events,
             "reads": sim.clocks.iter().map(|c| c.idx).sum::<u64>(),
             "sim_ns": sim.total_sim_ns,
             "switches": sim.n_switches,
@@ -472,12 +498,32 @@ fn run_batch(
     let mut handles = vec![];
     for mut child in children {
         let out = child.stdout.take().unwrap();
+        let pid = child.id();
+        let last_line = std::sync::Arc::new(std::sync::Mutex::new(Instant::now()));
+        let done = std::sync::Arc::new(std::sync::atomic::AtomicBool::new(false));
+        // watchdog: a worker that produces nothing for too long is hung inside a run
+        {
+            let last_line = last_line.clone();
+            let done = done.clone();
+            let limit = std::time::Duration::from_secs(if tier == Tier::Quick { 120 } else { 600 });
+            std::thread::spawn(move || loop {
+                std::thread::sleep(std::time::Duration::from_secs(2));
+                if done.load(std::sync::atomic::Ordering::SeqCst) {
+                    break;
+                }
+                if last_line.lock().unwrap().elapsed() > limit {
+                    let _ = Command::new("kill").arg("-9").arg(pid.to_string()).status();
+                    break;
+                }
+            });
+        }
         handles.push(std::thread::spawn(move || {
             let mut results = vec![];
             let mut started: Option<u64> = None;
             let rd = BufReader::new(out);
             for line in rd.lines() {
                 let Ok(line) = line else { break };
+                *last_line.lock().unwrap() = Instant::now();
                 if let Some(rest) = line.strip_prefix("START ") {
                     started = rest.trim().parse().ok();
                 } else if let Some(rest) = line.strip_prefix("RESULT ") {
@@ -488,6 +534,7 @@ fn run_batch(
                 }
             }
             let status = child.wait();
+            done.store(true, std::sync::atomic::Ordering::SeqCst);
             let mut aborted = None;
             let ok = status.as_ref().map(|s| s.success()).unwrap_or(false);
             if !ok {
